@@ -125,6 +125,7 @@ func init() {
 			{"nil-guard", "Table.Grid dereferences are nil-guarded", ruleNilGuardGrid},
 			{"copy-cover/alias", "CopyTable is complete and alias-free", ruleCopyTable},
 			{"loop-fresh", "table elements inserted in a loop are constructed in that loop", ruleLoopFresh},
+			{"prefix-append", "no append of new elements to a prefix of a slice whose tail is still needed", rulePrefixAppend},
 		},
 		Assumptions: commonAssumptions,
 	}
@@ -238,6 +239,7 @@ func init() {
 			{"raw-xml", "values spliced into header/footer XML are escaped", ruleRawXMLSplice},
 			{"closure-ret", "unknown variables stay", ruleClosureRet},
 			{"regex-repl-literal", "values never become an expanding regexp replacement ($-interpretation)", ruleRegexReplLiteral},
+			{"prefix-append", "no append of new elements to a prefix of a slice whose tail is still needed", rulePrefixAppend},
 		},
 		Assumptions: commonAssumptions,
 	}
